@@ -37,6 +37,14 @@ CHECKS = {
          "DESIGN.md §3 C12",
          "Held on every executed world and history: for worlds drawn from all fault families, accept(coll+crl) => accept(coll) => accept(base) and crl-without-coll rejects; the recording getter saw no request with collateral off, CRL endpoints only with revocation on, the TCB-Info URL naming the FMSPC decoded independently from the leaf (incl. permuted extension elements) and the PCK-CRL URL naming platform/processor by issuer; 200+ histories of 2-6 verifications through one shared Options value give the verdicts of fresh values; one wall-clock history across a certificate expiry with Options.Now nil.",
          "The stale-default-time sub-check reads the wall clock (6 s) and degrades to inconclusive on a slow machine."),
+ "C08": ("exploration", "runtime monitoring: differential comparison of policy validation with a reference policy evaluator (exact on well-formed options) over field-by-field grids and random combinations",
+         "DESIGN.md §3 C08",
+         "Held on every executed (quote, options) pair: for options whose entries are unset, empty or exactly sized the library accepts exactly when the reference evaluator (fixed masks restated as bit lists, little-endian SVNs) accepts; for wrongly sized entries and allowed-MR_TD lists with empty entries there is no panic and no exactly-sized expectation is missed. Grids: 9 exact fields x 10 option kinds, SVN byte-order traps, every TEE_TCB_SVN component at min-1/min/min+1, MinimumTeeTcbSvn of length 0..17, all 64 XFAM and TD_ATTRIBUTES bits on two bases, RTMR lists 0..5, allowed lists 0..4; through message and raw entry points.",
+         "Quotes are unsigned (policy validation does not look at signatures)."),
+ "C14": ("exploration", "runtime monitoring: policy messages converted by the library and judged three ways (must-fail rule, reference evaluation of the message itself, directly built options) on 4 quotes each",
+         "DESIGN.md §3 C14",
+         "Held on every executed message: conversion fails whenever an SVN minimum exceeds 16 bits or a non-empty byte string (incl. minimum_tee_tcb_svn, RTMR and allowed-MR_TD entries) has the wrong length; every message that converts is applied to 4 quotes without panic, with the verdict of the reference evaluation of the message itself and of directly built options. Fields x {absent, empty, exact, short, long, doubled}, SVNs at 0/65535/65536/2^32-1, RTMR lists 0..5, allowed lists 0..4, nil policy and absent sub-policies, in memory and after a wire round trip.",
+         "Same reference evaluator as C08."),
  "C09": ("exploration", "runtime monitoring: differential comparison of the library parser/serialiser with an independent reference layout parser/serialiser on hostile byte strings and generated messages",
          "DESIGN.md §3 C09",
          "Held on every executed input: same acceptance set as the reference v4 layout parser, every parsed field equal to the reference slice (so a self-consistent offset swap in parser and serialiser is visible), serialise(parse(b)) == b byte for byte, exported part serialisers equal the corresponding input slices, and generated well-formed messages serialise to the reference bytes and parse back proto.Equal. Exhaustive over truncation lengths and size-field boundary grids of the sampled quotes only.",
